@@ -55,3 +55,24 @@ def _str_format(it, s, *args, **kwargs):
             lit += c
             i += 1
     return out + SStr(lit)
+
+
+# uuid.uuid4(): only `str(uuid.uuid4())` is used by the code under contract.  Model: an object whose str() is a fresh,
+# unconstrained string (nothing is assumed about its format or uniqueness; contracts may only rely on "some str").
+import uuid as _uuid
+
+from .lib import function
+
+
+class UUIDModel:
+    def __init__(self, text):
+        self.text = text
+
+    def __str__(self):
+        return self.text
+
+
+@function(_uuid.uuid4)
+def f_uuid4(it):
+    it.ex.note("assumed", "uuid.uuid4(): str() of the result is an arbitrary fresh string")
+    return it.instantiate(UUIDModel, [it.fresh("str", "uuid4")], {})
